@@ -163,7 +163,8 @@ pub fn run(ctx: &Ctx, plan: &Plan) -> Stats {
     }
     if let Some((q, t, s5plan)) = &plan.s5 {
         // OS-thread interleavings: real Router::spawn() + client threads, offline checker
-        let rounds = ctx.size(*q, *t);
+        // (VERIF_S5_ROUNDS: used by the supplementary ThreadSanitizer pass, tools/tsan_pass.sh)
+        let rounds = std::env::var("VERIF_S5_ROUNDS").ok().and_then(|v| v.parse::<u64>().ok()).unwrap_or_else(|| ctx.size(*q, *t));
         crate::sub::s5::run_rounds(ctx, &mut stats, rounds, s5plan);
     }
     stats
